@@ -4,6 +4,7 @@ CONSTANTS
   Fuel = 3
   Quarantine = {}
   Only = {}
+  Allow = {}
   Emit = TRUE
 INVARIANTS OneValue NothingDropped Terminates PrecedenceShape EmitReplay
 CHECK_DEADLOCK FALSE
